@@ -35,7 +35,10 @@ type Stack struct {
 	// connection was still open) and is consumed by the next ConnectRetry
 	PendingAccept chan PendingConn
 	PendingDial   chan PendingConn
-	closeOnce     sync.Once
+	// EagerAccept: like gRPC's Serve loop, ask for the next connection as soon as Accept has
+	// returned one, i.e. while the handshake on that one is still running
+	EagerAccept bool
+	closeOnce   sync.Once
 }
 
 type PendingConn struct {
@@ -93,17 +96,49 @@ func (s *Stack) ConnectRetry(attempts int) (srv, cli SecureConn, tries int) {
 			var err error
 			switch {
 			case isServer && s.PendingAccept != nil:
-				p := <-s.PendingAccept
+				select {
+				case p := <-s.PendingAccept:
+					c, err = p.Conn, p.Err
+				case <-time.After(60 * time.Second):
+					err = fmt.Errorf("the pending Accept did not return within 60 s")
+					a = attempts
+				}
 				s.PendingAccept = nil
-				c, err = p.Conn, p.Err
 			case !isServer && s.PendingDial != nil:
-				p := <-s.PendingDial
+				select {
+				case p := <-s.PendingDial:
+					c, err = p.Conn, p.Err
+				case <-time.After(60 * time.Second):
+					err = fmt.Errorf("the pending Dial did not return within 60 s")
+					a = attempts
+				}
 				s.PendingDial = nil
-				c, err = p.Conn, p.Err
-			case isServer:
-				c, err = s.Srv.Accept()
 			default:
-				c, err = s.Cli.Dial(s.Ctx, "")
+				// Accept / Dial under a watchdog: a call that never returns is reported, not waited for
+				ch := make(chan PendingConn, 1)
+				go func() {
+					var p PendingConn
+					if isServer {
+						p.Conn, p.Err = s.Srv.Accept()
+					} else {
+						p.Conn, p.Err = s.Cli.Dial(s.Ctx, "")
+					}
+					ch <- p
+				}()
+				select {
+				case p := <-ch:
+					c, err = p.Conn, p.Err
+				case <-time.After(60 * time.Second):
+					mu.Lock()
+					e := fmt.Errorf("%s did not return within 60 s", map[bool]string{true: "Accept", false: "Dial"}[isServer])
+					if isServer {
+						srv = SecureConn{Err: e}
+					} else {
+						cli = SecureConn{Err: e}
+					}
+					mu.Unlock()
+					return
+				}
 			}
 			mu.Lock()
 			if !isServer {
@@ -120,6 +155,15 @@ func (s *Stack) ConnectRetry(attempts int) (srv, cli SecureConn, tries int) {
 				mu.Unlock()
 				time.Sleep(100 * time.Millisecond)
 				continue
+			}
+			if isServer && s.EagerAccept && s.PendingAccept == nil {
+				ch := make(chan PendingConn, 1)
+				s.PendingAccept = ch
+				go func() {
+					nc, err := s.Srv.Accept()
+					ch <- PendingConn{nc, err}
+				}()
+				time.Sleep(50 * time.Millisecond) // let it reach its wait before the handshake starts
 			}
 			var nc net.Conn
 			if isServer {
